@@ -339,6 +339,12 @@ def run(eng, rep) -> None:
     rep.rule("R09.3", "every check and category verdict is consumed by attempt() unconditionally inside @catch; registration appends")
     rep.rule("R09.4", "checks do not write the schema; predicates are order-symmetric by form")
     rep.rule("R09.5", "the size check measures the layout its plug-in emits: same encoder configuration as the writer (an array of structs raises in the non-unrolled layout and would be rejected although it fits)")
+    rep.rule("R09.7", "an identity key is not one string glued from several identifier texts with a separator identifiers may contain")
+    from .lints import composite_text_keys
+    composite_text_keys(eng, rep, "R09.7", ("fcp.verifier", "fcp_dbc", "fcp_can_c"), "two distinct declarations are reported as duplicates (a valid schema is rejected)")
+    rep.rule("R09.6", "a by-name struct/enum lookup in a check is fed with the name the node refers to (.type), not the node's own name")
+    from .lints import name_kind_sinks
+    name_kind_sinks(eng, rep, "R09.6", ("fcp.verifier", "fcp_dbc", "fcp_can_c", "fcp_cpp"), "the check looks for a struct called like the binding, so a binding whose name differs from its struct is rejected (or a dangling one accepted when a struct happens to be called like it)")
     rep.assume("list.count / len / in as specified by Python; order independence follows from the symmetric predicate forms (count, emptiness, membership)")
     prog.func(GENERAL)
     regs = registered_checks(eng)
